@@ -8,7 +8,7 @@ must equal the schema-order pre-order of the tree and no node may be reachable t
 import json
 import os
 
-from . import core, walk, inputs
+from . import core, walk, inputs, progs as progmod
 
 
 def run(tier):
@@ -62,6 +62,13 @@ def run(tier):
             if f["c"].startswith("C12."):
                 check.violation({"class": f["c"], "kind": f.get("kind") or f.get("want"), "parent": f.get("parent"), "role": f.get("role")},
                                 {"src": p["src"], "ver": p["ver"], "fail": f})
+    # pairs of statements: the tree of "A B" consists of the trees of A and of B, and shares no node (parser actions that leave
+    # something behind for a later production)
+    for family in ("7", "5"):
+        for a, b, ver, what, detail in progmod.statement_pairs(check, wp, family, core.seed(), 20000 if tier == "quick" else 300000):
+            if what == "shared-node":
+                check.violation({"class": "C12.shared-node", "kind": str(detail).split(" ")[0], "parent": str(detail).split(" of ")[-1], "role": "pair"},
+                                {"src": "<?php " + a + "\n" + b, "ver": ver, "detail": detail})
     check.cov["parsed_trees"] = nparsed
     check.cov["kinds_in_parsed_trees"] = len(pk)
     check.assumptions += ["NodeSchema.tla (frozen, compared with pkg/ast at run time): field order is source order",
